@@ -94,6 +94,18 @@ CLAIMS = {
         note=LEAN_NOTE + "HashSet/HashMap iteration orders abstracted (compared as multisets / at quiescent points)",
         technique="Lean 4 proof (invariant over histories; negation witness for the join race) + exhaustive history x join-point correspondence",
     ),
+    "C16": dict(
+        engine="world",
+        text="Lean 4 on the World model's peer_disconnected (as coded per backend) and fair-queue poll: forgotten (no table entry a later send consults), isolated (no other peer's entry changes), write half released; and the NEGATIONS for the pairs where the code is wrong, as general theorems: the fair-queue poll never touches the peer table, so an orderly EOF (consumed inside the queue) leaves the departed peer's write half registered; a failed write in REQ/ROUTER/REP send keeps the peer. Those (type, event) pairs are enumerated as known findings with witnesses; any other pair failing is a violation. PARTIAL: descriptor release observed via the pipe halves' Drop flags, not modelled. Tie: 9 socket types x every cut position of the victim's stream (each handshake stage, header, 8-byte length, body, between frames, between messages) x {EOF, read error, write error, protocol error} with bystanders; recv error count / no spin, late sends, halves.",
+        note=LEAN_NOTE + "FramedRead2 EOF handling modelled; OS descriptor release observed not modelled",
+        technique="Lean 4 proof (per-event theorems; negation theorems for the recorded pairs) + fault-position x event correspondence",
+    ),
+    "C17": dict(
+        engine="world",
+        text="Lean 4: ownership graph with reference-count semantics (Freed = inductive least fixpoint): with the repaired fair queue, dropping/closing the socket frees every registered connection whatever wakers were armed (dropped_closes) and always frees the accept tasks; the NEGATION for the queue as it was (an armed StreamWaker closes a strong cycle through the transport — reproduced on the real code, repaired by a fix: commit); finding: a pending handshake survives close/drop (known finding D14). World model: Drop/close() empty every table. PARTIAL: OS sockets, tokio scheduling and 'shortly afterwards' are observed, not modelled. Tie: 9 socket types x all 2^5 history prefixes {recv pending, recv delivered, send, peer EOF, pending handshake} x {drop, close()} over scripted pipes whose halves record their own Drop, compared half by half.",
+        note=LEAN_NOTE + "Arc/Drop semantics as modelled by the ownership graph; listeners/OS observed by the net engine where built",
+        technique="Lean 4 proof (inductive Freed over the ownership graph; cycle-leak negation) + exhaustive history-prefix correspondence on pipe Drop flags",
+    ),
     "C19": dict(
         engine="endpoint",
         text="Lean 4 theorems over the endpoint parser model (the two regexes' semantics spelled out over List Char): parse s = ok e <-> the declarative grammar of the property (strict, both directions), parse (display e) = ok e for every parsed e (round trip, IPv6 bracketed), the only slicing operation is in range and on char boundaries (total), IP literals become addresses. std::net enters through an explicit structure of laws (hypotheses of the round-trip theorem). Tie: real str::parse::<Endpoint>() + Display + re-parse vs the model, EXHAUSTIVELY over a 17-character alphabet (incl. newline, non-ASCII digit, upper case) to length 4/5 after 5 prefixes, grammar-based and mutated endpoints; the Lean models of std::net parse/print are compared with the real std on sampled addresses and near-valid IPv6/IPv4 texts.",
@@ -140,7 +152,7 @@ def main():
             {"name": "tables", "path": "harness/src/tables.rs -> lean/ZmqVerif/Gen/Tables.lean", "serves_properties": ["C01", "C03", "C04"], "kind_free_text": "finite tables regenerated from the real code's behaviour on every run; theorems re-proved over them by decide"},
             {"name": "codec", "path": "harness/src/codec.rs + lean/Driver/Codec.lean", "serves_properties": ["C01", "C02", "C03"], "kind_free_text": "real ZmqCodec vs the Lean decoder/encoder model over a line protocol; hostile mode with counting allocator and small-stack thread"},
             {"name": "fq", "path": "harness/src/fq.rs + lean/Driver/Fq.lean", "serves_properties": ["C05", "C06"], "kind_free_text": "real FairQueue (via __verif::FairQueueProbe) over scripted streams with window actions and a counting receiver waker vs the Lean micro-step model, exact schedule replay"},
-            {"name": "world", "path": "harness/src/world.rs + harness/src/pipe.rs + lean/Driver/World.lean (Model/World.lean)", "serves_properties": ["C04", "C07", "C08", "C09", "C10", "C11", "C12", "C13", "C14"], "kind_free_text": "any number of REAL sockets + scripted in-memory pipes attached through the real handshake + user futures polled one poll at a time; the Lean World model replays the same schedule and must predict every line"},
+            {"name": "world", "path": "harness/src/world.rs + harness/src/pipe.rs + lean/Driver/World.lean (Model/World.lean)", "serves_properties": ["C04", "C07", "C08", "C09", "C10", "C11", "C12", "C13", "C14", "C16", "C17"], "kind_free_text": "any number of REAL sockets + scripted in-memory pipes attached through the real handshake + user futures polled one poll at a time; the Lean World model replays the same schedule and must predict every line"},
             {"name": "endpoint", "path": "harness/src/endpoint.rs + lean/Driver/Endpoint.lean", "serves_properties": ["C19"], "kind_free_text": "real Endpoint::from_str/Display and std::net vs the Lean endpoint and IP text models"},
             {"name": "spec", "path": "lean/Driver/Spec.lean", "serves_properties": ["C01"], "kind_free_text": "Lean Spec predicates (strict RFC-23 grammar) evaluated on bytes the implementation produced"},
         ],
